@@ -174,7 +174,7 @@ def check_strategies(v, game, facts, pstar, phat, strat, theta, label, stopping)
     n = facts.n
     if stopping:
         T = facts.T
-        if T > T_MAX:
+        if facts.too_slow:
             v.cls("T>300")
             return
         tolgap = theta * (float(T) + 1) + 10.0 ** (-digits)
@@ -283,7 +283,7 @@ def check_case(case):
     if not stopping:
         v.inconclusive = "solve() route needs a stopping game"
         return v
-    if facts.T > T_MAX:
+    if facts.too_slow:
         v.inconclusive = "T>300"
         return v
     a, b = Solved(facts, True), Solved(facts, False)
